@@ -2683,12 +2683,93 @@ func writeBodyFixedSize(w *bufio.Writer, r io.Reader, size int64) error {
 		}
 	}
 
-	n, err := copyBodyStream(w, r)
+	// Never put more than the declared size on the wire: a stream that yields
+	// more would otherwise be copied in full behind a smaller Content-Length
+	// and its excess be read by the peer as the next message.
+	fw := acquireFixedSizeBodyWriter(w, size)
+	n, err := copyBodyStream(fw, r)
+	releaseFixedSizeBodyWriter(fw)
 
 	if n != size && err == nil {
 		err = fmt.Errorf("copied %d bytes from body stream instead of %d bytes", n, size)
 	}
 	return err
+}
+
+var errBodyStreamTooLong = errors.New("body stream yields more bytes than the declared body size")
+
+// fixedSizeBodyWriter passes at most n bytes to w and fails on any excess.
+// It forwards ReadFrom to w with the source capped at the remaining budget, so
+// the sendfile path of bufio.Writer.ReadFrom stays available for files.
+type fixedSizeBodyWriter struct {
+	w  *bufio.Writer
+	n  int64
+	lr io.LimitedReader
+}
+
+var fixedSizeBodyWriterPool sync.Pool
+
+func acquireFixedSizeBodyWriter(w *bufio.Writer, n int64) *fixedSizeBodyWriter {
+	v := fixedSizeBodyWriterPool.Get()
+	if v == nil {
+		return &fixedSizeBodyWriter{w: w, n: n}
+	}
+	fw := v.(*fixedSizeBodyWriter) //nolint:forcetypeassert
+	fw.w, fw.n = w, n
+	return fw
+}
+
+func releaseFixedSizeBodyWriter(fw *fixedSizeBodyWriter) {
+	fw.w = nil
+	fw.lr.R = nil
+	fixedSizeBodyWriterPool.Put(fw)
+}
+
+func (fw *fixedSizeBodyWriter) Write(p []byte) (int, error) {
+	if int64(len(p)) > fw.n {
+		nn, err := fw.w.Write(p[:fw.n])
+		fw.n -= int64(nn)
+		if err == nil {
+			err = errBodyStreamTooLong
+		}
+		return nn, err
+	}
+	nn, err := fw.w.Write(p)
+	fw.n -= int64(nn)
+	return nn, err
+}
+
+func (fw *fixedSizeBodyWriter) ReadFrom(r io.Reader) (int64, error) {
+	src := r
+	if lr, ok := r.(*io.LimitedReader); !ok || lr.N > fw.n {
+		// not already bounded by the budget: cap it
+		if ok {
+			fw.lr.R, fw.lr.N = lr.R, fw.n
+		} else {
+			fw.lr.R, fw.lr.N = r, fw.n
+		}
+		src = &fw.lr
+	}
+	nn, err := fw.w.ReadFrom(src)
+	fw.n -= nn
+	if err == nil && fw.n == 0 && src == io.Reader(&fw.lr) {
+		// The budget is used up. Anything the source still yields is excess.
+		var b [1]byte
+		for i := 0; i < 100; i++ {
+			m, rerr := fw.lr.R.Read(b[:])
+			if m > 0 {
+				err = errBodyStreamTooLong
+				break
+			}
+			if rerr != nil {
+				if rerr != io.EOF {
+					err = rerr
+				}
+				break
+			}
+		}
+	}
+	return nn, err
 }
 
 func copyBodyStream(w io.Writer, r io.Reader) (int64, error) {
